@@ -149,16 +149,34 @@ def encode_lens(M: int, C: int, L: int, cid: int, has_ds: bool, as_file: bool) -
 class _RecDul(object):
     def __init__(self):
         self.sent = []
+        self.max_pdu_length = 65536       # the real provider keeps the LOCAL receive maximum, not the negotiated one
 
     def send(self, x):
         self.sent.append(x)
 
 
-def make_assoc(max_pdu_length):
+TS_UIDS = ['1.2.840.10008.1.2', '1.2.840.10008.1.2.1', '1.2.840.10008.1.2.2']
+
+
+class _AnyContext(dict):
+    """accepted contexts of an established association: whatever context id a message is sent on was accepted, with
+    the transfer syntax chosen for this association (implicit LE / explicit LE / explicit BE)"""
+    ts_index = 0
+
+    def __missing__(self, cid):
+        import pydicom
+        v = asceprovider.PContextDef(cid, pydicom.uid.UID('1.2.840.10008.5.1.4.1.1.2'),
+                                     pydicom.uid.UID(TS_UIDS[self.ts_index]))
+        self[cid] = v
+        return v
+
+
+def make_assoc(max_pdu_length, ts_index=0):
     a = object.__new__(asceprovider.Association)
     a.dul = _RecDul()
     a.max_pdu_length = max_pdu_length
-    a.accepted_contexts = {}
+    a.accepted_contexts = _AnyContext()
+    a.accepted_contexts.ts_index = ts_index
     a.association_established = True
     return a
 
@@ -223,6 +241,45 @@ def encode_contents(data: bytes, cid: int, mi: int, as_file: bool) -> bool:
     else:
         ok = ok and flags[-1] == 3 and 2 not in flags and 0 not in flags
     deep(ok and len(dat) >= 2 and mi == 1)
+    return ok
+
+
+def _split(pdus):
+    cmd, dat = [], []
+    for p in pdus:
+        v = p.data_value_items[0]
+        (cmd if v.data_value[0] in (1, 3) else dat).append(v.data_value[1:])
+    return b''.join(cmd), b''.join(dat)
+
+
+@cond(bounds='the same message object sent twice on one association, its data set (symbolic bytes 1..3 each time) and '
+             'message id re-assigned between the sends; the provider thread takes the first queued message before or '
+             'only after the second send (symbolic schedule): the fragments of EACH send reproduce the command set and '
+             'the data set as they were when that send was made; maximum length 9 / 40 (symbolic), bytes or file',
+      family={'cls': [0, 5, 7]}, timeout=240)
+def resent_contents(d1: bytes, d2: bytes, mid1: int, mid2: int, late: bool, mi: int, as_file: bool) -> bool:
+    """
+    pre: 1 <= len(d1) <= 3 and 1 <= len(d2) <= 3 and 0 <= mid1 <= 65535 and 0 <= mid2 <= 65535 and 1 <= mi <= 2
+    post: _
+    """
+    M = MS[pick(mi, 1, 2)]
+    msg = MSG_CLASSES[fam('cls')]()
+    idf = 'MessageID' if 'MessageID' in msg.command_fields else 'MessageIDBeingRespondedTo'
+    a = make_assoc(M)
+    setattr(msg.command_set, idf, mid1)
+    msg.data_set = _file_of(d1) if as_file else d1
+    a.send(msg, 5)
+    want1 = dsutils.encode(msg.command_set, True, True)
+    first = None if late else list(a.dul.sent[0])
+    setattr(msg.command_set, idf, mid2)
+    msg.data_set = _file_of(d2) if as_file else d2
+    a.send(msg, 5)
+    want2 = dsutils.encode(msg.command_set, True, True)
+    if late:
+        first = list(a.dul.sent[0])
+    second = list(a.dul.sent[1])
+    ok = _split(first) == (want1, d1) and _split(second) == (want2, d2)
+    deep(ok and late and len(d1) == 3 and len(d2) == 1)
     return ok
 
 
